@@ -40,12 +40,12 @@ func vExpectedProblems(a, b *ndp.RouterAdvertisement) (out []string, dontcare bo
 		add("retransmit_timer", "")
 	}
 	var (
-		mtuA, mtuB   []*ndp.MTU
-		piA, piB     []*ndp.PrefixInformation
-		riA, riB     []*ndp.RouteInformation
-		rdA, rdB     []*ndp.RecursiveDNSServer
-		dsA, dsB     []*ndp.DNSSearchList
-		cpA, cpB     []*ndp.CaptivePortal
+		mtuA, mtuB []*ndp.MTU
+		piA, piB   []*ndp.PrefixInformation
+		riA, riB   []*ndp.RouteInformation
+		rdA, rdB   []*ndp.RecursiveDNSServer
+		dsA, dsB   []*ndp.DNSSearchList
+		cpA, cpB   []*ndp.CaptivePortal
 	)
 	split := func(opts []ndp.Option, mtu *[]*ndp.MTU, pi *[]*ndp.PrefixInformation, ri *[]*ndp.RouteInformation, rd *[]*ndp.RecursiveDNSServer, ds *[]*ndp.DNSSearchList, cp *[]*ndp.CaptivePortal) {
 		for _, o := range opts {
@@ -157,10 +157,18 @@ var vAspects = []vAspect{
 	{"hop_limit", func(ra *ndp.RouterAdvertisement, v int) { ra.CurrentHopLimit = []uint8{0, 64, 255}[v] }},
 	{"managed", func(ra *ndp.RouterAdvertisement, v int) { ra.ManagedConfiguration = v == 1 }},
 	{"other", func(ra *ndp.RouterAdvertisement, v int) { ra.OtherConfiguration = v == 2 }},
-	{"reachable", func(ra *ndp.RouterAdvertisement, v int) { ra.ReachableTime = []time.Duration{0, 30 * time.Second, 45 * time.Second}[v] }},
-	{"retransmit", func(ra *ndp.RouterAdvertisement, v int) { ra.RetransmitTimer = []time.Duration{0, time.Second, 1500 * time.Millisecond}[v] }},
-	{"router_lifetime", func(ra *ndp.RouterAdvertisement, v int) { ra.RouterLifetime = []time.Duration{0, 1800 * time.Second, 600 * time.Second}[v] }},
-	{"preference", func(ra *ndp.RouterAdvertisement, v int) { ra.RouterSelectionPreference = []ndp.Preference{ndp.Medium, ndp.High, ndp.Low}[v] }},
+	{"reachable", func(ra *ndp.RouterAdvertisement, v int) {
+		ra.ReachableTime = []time.Duration{0, 30 * time.Second, 45 * time.Second}[v]
+	}},
+	{"retransmit", func(ra *ndp.RouterAdvertisement, v int) {
+		ra.RetransmitTimer = []time.Duration{0, time.Second, 1500 * time.Millisecond}[v]
+	}},
+	{"router_lifetime", func(ra *ndp.RouterAdvertisement, v int) {
+		ra.RouterLifetime = []time.Duration{0, 1800 * time.Second, 600 * time.Second}[v]
+	}},
+	{"preference", func(ra *ndp.RouterAdvertisement, v int) {
+		ra.RouterSelectionPreference = []ndp.Preference{ndp.Medium, ndp.High, ndp.Low}[v]
+	}},
 	{"mtu", func(ra *ndp.RouterAdvertisement, v int) {
 		if v > 0 {
 			ra.Options = append(ra.Options, ndp.NewMTU([]uint32{0, 1500, 1280}[v]))
